@@ -15,11 +15,37 @@ the updated parameters and the current ones for the untouched parameters - for
 both accessor orders (a cache that is not invalidated by one particular
 parameter, or that is refreshed by only one accessor, breaks "mean rate == the
 supplied mu" / "probability of the invariant class == pinv").
+
+Sample shapes ('shapes' tasks): the parameters carry one, two or three leading
+axes ([2], [3], [2,3], [3,2], [2,2,3], [1] and sizes equal to the number of
+categories / that number + 1), for every model and every non-empty subset of
+its parameters (the others stay [1]).  All clauses are decided per sample on the
+last axis; rates().shape / probabilities().shape == sample shape + (categories,)
+is a concrete obligation.
+
+Op histories ('ops' tasks): after an optional first read, EVERY sequence of 3
+(thorough: 4) ops over {update shape, update pinv, update mu, rates() only,
+probabilities() only, rates() then probabilities(), probabilities() then
+rates()}; a sequence that ends with an update is closed by each of the four
+reads.  Every read is decided against the clauses at the symbols current at
+that moment.
+
+In these two families the obligations of a correct implementation are instances
+of a handful of formulas (one per model x clause): an obligation whose goal and
+hypotheses are, after renaming the current symbols of the sample to their role
+and up to the operand order of the commutative builders, identical to one the
+solver already proved is closed by that proof; every other obligation (a stale
+symbol of an earlier update, a symbol of another sample, ...) goes to the solver.
 """
 from __future__ import annotations
 
+import hashlib
 import itertools
+import os
+import shutil
 import sys
+import tempfile
+from fractions import Fraction
 
 import torch
 
@@ -59,11 +85,17 @@ def run_task(task, tr):
 
     if task[0] == 'hist':
         return run_hist(task, tr)
+    if task[0] == 'shapes':
+        return run_shapes(task, tr)
+    if task[0] == 'ops':
+        return run_ops(task, tr)
     kind, K, mu, batched = task
     label = f'{kind} K={K} mu={mu} batched={batched}'
     tr.fn(sm.ConstantSiteModel.rates, sm.InvariantSiteModel.update_rates_probs,
           sm.UnivariateDiscretizedSiteModel.update_rates, sm.WeibullSiteModel.inverse_cdf)
-    tr.bounds['categories'] = 'K in 1..4 (quick) / 1..6,8,16 (thorough); shapes [] and [2]; every combination with invariant / mu'
+    tr.bounds['categories'] = ('K in 1..4 (quick) / 1..6,8,16 (thorough); shapes [] and [2] (all parameters batched); every '
+                               'combination with invariant / mu; further leading shapes and partially batched parameters: see '
+                               '"sample shapes"')
     B = 2 if batched else 1
     with tracing() as t:
         d = t.dag
@@ -156,7 +188,7 @@ def run_task(task, tr):
             return replay_case(kind, K, mu, batched, vals)
 
         cm.discharge(tr, d, dom + ax + list(t.pcs), goals, label, replay=replay, timeout=40.0, varnodes=allv,
-                     sig_prefix=f'{kind}:')
+                     sig_prefix=f'{kind}:', threads=4 if K >= 3 else 1)
 
 
 def concrete_check(kind, K, tag, r, p, pv, m):
@@ -471,6 +503,512 @@ def replay_hist(kind, K, mu, batched, variant, vals, upto=None, finite_only=Fals
     return False, 'agree'
 
 
+# ------------------------------------------------------------------ scenarios: sample shapes and op histories
+# One executor for both extensions.  A scenario is a list of ops on a model freshly built from JSON:
+#   ('U', key)      the parameter `key` (shape / pinv / mu) is replaced by fresh symbols through Parameter.tensor
+#   ('read', which) which in R (rates() only), P (probabilities() only), RP, PR (both, in that order)
+# Every read is compared with the clauses of the property at the symbols that are CURRENT at that moment.
+READS = ('R', 'P', 'RP', 'PR')
+WIT2 = {'shape': (0.7, 0.05, 0.9), 'pinv': (0.15, 0.04, 0.6), 'mu': (1.3, 0.07, 0.8)}
+CLAUSES2 = {'sum': 'probabilities sum to one', 'nonneg': 'probabilities and rates non-negative',
+            'nonneg_r': 'rates non-negative', 'nonneg_p': 'probabilities non-negative',
+            'mean': 'weighted mean rate == the current mu (or 1)',
+            'mean_o': 'mean of rates() under the defining category probabilities at the current pinv == the current mu (or 1)',
+            'invclass': 'invariant class has rate exactly 0 and probability equal to the current pinv',
+            'invrate': 'invariant class has rate exactly 0',
+            'invprob': 'invariant class has probability equal to the current pinv',
+            'shape': 'rates() / probabilities() have shape sample shape + (number of categories,)',
+            'well-defined': 'denominator non-zero / log, sqrt argument in its domain'}
+MAX_VIOLATIONS_PER_TASK = 4
+PROVEN = set()      # canonical keys of obligations this process has seen proved
+CACHE_DIR = [None]  # directory shared by the worker processes (one empty file per proved canonical key)
+
+
+def exp_cat(kind, K):
+    return {'constant': 1, 'invariant': 2, 'weibull': K, 'weibull+inv': K + 1}[kind]
+
+
+def nrows_of(lead):
+    n = 1
+    for s in lead:
+        n *= s
+    return n
+
+
+def wit2(key, ver, row, nrows):
+    base, per_ver, span = WIT2[key]
+    return base + per_ver * ver + span * row / max(1, nrows)
+
+
+def var_name(key, ver, row, lead, batched):
+    if not batched:
+        return f'{key}_v{ver}[0]'
+    idx = []
+    for s in reversed(lead):
+        idx.append(row % s)
+        row //= s
+    return f'{key}_v{ver}[' + ','.join(str(i) for i in reversed(idx)) + ',0]'
+
+
+def ops_str(ops):
+    return ' '.join(('U' + o[1]) if o[0] == 'U' else o[1] for o in ops)
+
+
+def allowed_prob_shapes(kind, K, lead, bkeys):
+    """rates() must be exactly sample shape + (ncat,).  probabilities() too whenever a batched parameter enters them
+    (the invariant proportion); otherwise the sample-independent form (ncat,) - which the tree likelihood broadcasts
+    against every sample - is accepted as well"""
+    ncat = exp_cat(kind, K)
+    full = tuple(lead) + (ncat,)
+    return {full} if 'pinv' in bkeys else {full, (ncat,)}
+
+
+def oracle_probs_nodes(d, kind, K, pinv_node):
+    if kind == 'constant':
+        return [1]
+    if kind == 'invariant':
+        return [pinv_node, d.sub(1, pinv_node)]
+    if kind == 'weibull':
+        return [d.const(Fraction(1, K))] * K
+    return [pinv_node] + [d.mul(d.const(Fraction(1, K)), d.sub(1, pinv_node))] * K
+
+
+def read_goals(d, kind, K, lead, bkeys, which, r, p, cur):
+    """-> [(clause, row, node, detail)]; a concrete shape failure is the single entry ('shape', None, FALSE, text)"""
+    ncat = exp_cat(kind, K)
+    full = tuple(lead) + (ncat,)
+    n = nrows_of(lead)
+    rrows = prows = None
+    if 'R' in which:
+        if not isinstance(r, torch.Tensor) or tuple(r.shape) != full:
+            got = tuple(r.shape) if isinstance(r, torch.Tensor) else type(r).__name__
+            return [('shape', None, d.FALSE, f'rates() has shape {got}, expected {full}')]
+        rrows = ids_of_any(d, r).reshape(-1, ncat).tolist()
+    if 'P' in which:
+        if not isinstance(p, torch.Tensor) or tuple(p.shape) not in allowed_prob_shapes(kind, K, lead, bkeys):
+            got = tuple(p.shape) if isinstance(p, torch.Tensor) else type(p).__name__
+            return [('shape', None, d.FALSE, f'probabilities() has shape {got}, expected {full}')]
+        prows = ids_of_any(d, p).expand(full).reshape(-1, ncat).tolist()
+    out = []
+    for b in range(n):
+        target = cur['mu'][b] if 'mu' in cur else 1
+        pinv = cur['pinv'][b] if 'pinv' in cur else None
+        if which in ('RP', 'PR'):
+            rr, pp = rrows[b], prows[b]
+            s = m = 0
+            for x, y in zip(rr, pp):
+                s = d.add(s, y)
+                m = d.add(m, d.mul(y, x))
+            out.append(('sum', b, d.eq(s, 1), ''))
+            out.append(('nonneg', b, d.and_(*([d.le(0, y) for y in pp] + [d.le(0, x) for x in rr])), ''))
+            out.append(('mean', b, d.eq(m, target), ''))
+            if 'inv' in kind:
+                out.append(('invclass', b, d.and_(d.eq(rr[0], 0), d.eq(pp[0], pinv)), ''))
+        elif which == 'R':
+            rr = rrows[b]
+            m = 0
+            for x, y in zip(rr, oracle_probs_nodes(d, kind, K, pinv)):
+                m = d.add(m, d.mul(y, x))
+            out.append(('nonneg_r', b, d.and_(*[d.le(0, x) for x in rr]), ''))
+            out.append(('mean_o', b, d.eq(m, target), ''))
+            if 'inv' in kind:
+                out.append(('invrate', b, d.eq(rr[0], 0), ''))
+        else:
+            pp = prows[b]
+            s = 0
+            for y in pp:
+                s = d.add(s, y)
+            out.append(('sum', b, d.eq(s, 1), ''))
+            out.append(('nonneg_p', b, d.and_(*[d.le(0, y) for y in pp]), ''))
+            if 'inv' in kind:
+                out.append(('invprob', b, d.eq(pp[0], pinv), ''))
+    return out
+
+
+class Canon:
+    """structural digest of a DAG node modulo (a) a renaming of variables and (b) the operand order of the commutative
+    builders.  Two obligations with equal digests (goal and hypotheses) are the same formula up to a bijective renaming of
+    free variables, so the solver's `unsat` for one of them is a proof of the other."""
+    COMM = ('add', 'mul', 'and', 'or', 'eq')
+
+    def __init__(self, d):
+        self.d = d
+        self.memo = {}
+
+    def digest(self, n, ren, renkey):
+        d = self.d
+        memo = self.memo.setdefault(renkey, {})
+        if n in memo:
+            return memo[n]
+        for x in d.topo([n]):
+            if x in memo:
+                continue
+            op = d.ops[x]
+            a = d.args[x]
+            if op == 'var':
+                txt = 'var ' + ren.get(x, 'name:' + a[0])
+            elif op in ('const', 'bconst'):
+                txt = f'{op} {a[0]}'
+            elif op == 'ipow':
+                txt = f'ipow {memo[a[0]]} {a[1]}'
+            elif op == 'uf':
+                txt = f'uf {a[0]} ' + ' '.join(memo[c] for c in a[1:])
+            elif op in self.COMM:
+                txt = op + ' ' + ' '.join(sorted(memo[c] for c in a))
+            else:
+                txt = op + ' ' + ' '.join(memo[c] for c in a)
+            memo[x] = hashlib.sha1(txt.encode()).hexdigest()
+        return memo[n]
+
+
+def cache_has(key):
+    if key in PROVEN:
+        return True
+    cd = CACHE_DIR[0]
+    if cd and os.path.exists(os.path.join(cd, key)):
+        PROVEN.add(key)
+        return True
+    return False
+
+
+def cache_put(key):
+    PROVEN.add(key)
+    cd = CACHE_DIR[0]
+    if cd:
+        try:
+            open(os.path.join(cd, key), 'w').close()
+        except OSError:
+            pass
+
+
+def prove_cached(tr, st, glabel, node, sig, replay, label):
+    """decide one obligation under the domain constraints of the variables it mentions (+ ground axioms + the path
+    conditions of this run).  Current symbols are renamed to their role (shape / pinv / mu) for the cache key."""
+    d, t = st['d'], st['t']
+    if node == d.TRUE:
+        tr.obligation(f'trivial:{glabel}', nontrivial=False)
+        return True
+    ax = ground_axioms(d, [node]) if node != d.FALSE else []
+    pcs = list(t.pcs)
+    vs = [x for x in d.topo([node] + ax + pcs) if d.ops[x] == 'var']
+    hyps = [c for v in vs for c in st['domc'].get(v, [])] + ax + pcs
+    byrole = {}
+    for v in vs:
+        role = st['roles'].get(v)
+        if role is not None:
+            byrole.setdefault(role, []).append(v)
+    ren = {vv[0]: 'role:' + role for role, vv in byrole.items() if len(vv) == 1}
+    renkey = tuple(sorted(ren.items()))
+    cn = st['canon']
+    key = hashlib.sha1((cn.digest(node, ren, renkey) + '|' +
+                        ' '.join(sorted(cn.digest(h, ren, renkey) for h in hyps))).encode()).hexdigest()
+    if node != d.FALSE and cache_has(key):
+        st['hits'] += 1
+        return True
+    vn = {d.args[v][0]: v for v in vs}
+    n = cm.discharge(tr, d, hyps, [(glabel, node, [], sig)], label, replay=replay, timeout=40.0, varnodes=vn,
+                     sig_prefix='', defined=False)
+    if n == 1:
+        cache_put(key)
+        return True
+    return False
+
+
+def sym_scenario(tr, kind, K, mu, lead, bkeys, ops, label, sig_of, state=None):
+    """run the ops symbolically, decide every read.  sig_of(clause, index of the op) -> signature.
+    -> False as soon as something was reported (violation / inconclusive), True otherwise"""
+    keys = param_keys(kind, mu)
+    n = nrows_of(lead)
+    with tracing() as t:
+        d = t.dag
+        site, dic = cm.build(model_json(kind, K, mu))
+        st = {'d': d, 't': t, 'domc': {}, 'roles': {}, 'canon': Canon(d), 'hits': 0}
+        ver = {k: 0 for k in keys}
+        cur = {}
+
+        def assign(key):
+            batched = key in bkeys
+            m = n if batched else 1
+            vals = torch.tensor([wit2(key, ver[key], r, m) for r in range(m)], dtype=torch.float64)
+            vals = vals.reshape(tuple(lead) + (1,) if batched else (1,))
+            sym = cm.symbolize(dic[key], f'{key}_v{ver[key]}', vals)
+            ids = sym._ids.reshape(-1).tolist()
+            for old in cur.get(key, []):
+                st['roles'].pop(old, None)
+            cur[key] = ids if batched else ids * n
+            for i in ids:
+                st['roles'][i] = key
+                st['domc'][i] = [d.le(0, i), d.lt(i, 1)] if key == 'pinv' else [d.lt(0, i)]
+            ver[key] += 1
+
+        def replay_upto(i, **kw):
+            return lambda vals: concrete_scenario(kind, K, mu, lead, bkeys, ops[:i + 1], vals, **kw)
+
+        for i, op in enumerate(ops):
+            if op[0] == 'U':
+                assign(op[1])
+                continue
+            which = op[1]
+            nden, ndom = len(t.denominators), len(t.domains)
+            try:
+                r = p = None
+                for acc in which:
+                    if acc == 'R':
+                        r = site.rates()
+                    else:
+                        p = site.probabilities()
+            except Exception as e:
+                bad, detail = concrete_scenario(kind, K, mu, lead, bkeys, ops[:i + 1], {})
+                mixed = bool(lead) and 0 < len(set(bkeys)) < len(keys)
+                if bad and mixed:
+                    # some parameters carry the sample axes and others do not: a shape combination the model does not
+                    # support and that FAILS LOUDLY.  The property quantifies over admissible parameters and says
+                    # nothing about shapes (C10: "fails with an error rather than returning a number" is the accepted
+                    # outcome), so this is recorded, not reported.  A raise with consistent shapes stays a violation.
+                    tr.notes.append(f'{label}: [{ops_str(ops[:i + 1])}] mixed batched / unbatched parameters raise '
+                                    f'{type(e).__name__} (loud failure, accepted): {str(e)[:120]}')
+                elif bad:
+                    tr.violation(sig_of('raises', i), f'{label}: [{ops_str(ops[:i + 1])}] raises {type(e).__name__}: {e}; '
+                                 f'on plain tensors: {detail}', {'label': label, 'ops': ops_str(ops[:i + 1])})
+                else:
+                    tr.inconc(f'{label}: [{ops_str(ops[:i + 1])}] symbolic run raised {type(e).__name__}: {e}, '
+                              'the same ops on plain tensors do not')
+                return False
+            tr.regions += 1
+            where = f'[{ops_str(ops[:i + 1])}]'
+            for clause, b, node, detail in read_goals(d, kind, K, lead, bkeys, which, r, p, cur):
+                if clause == 'shape':
+                    tr.obligation(f'shape:{label}:{where}', nontrivial=False)
+                    bad, cdetail = concrete_scenario(kind, K, mu, lead, bkeys, ops[:i + 1], {})
+                    if bad:
+                        tr.violation(sig_of('shape', i), f'{label}: {where} {detail}; on plain tensors: {cdetail}',
+                                     {'label': label, 'ops': ops_str(ops[:i + 1])})
+                    else:
+                        tr.inconc(f'{label}: {where} {detail} in the symbolic run only')
+                    return False
+                if not prove_cached(tr, st, f'{where} sample {b}: {CLAUSES2[clause]}', node, sig_of(clause, i),
+                                    replay_upto(i), label):
+                    return False   # reported (violation / undecided): the other samples of this read add nothing
+            # well-definedness of what this read computed
+            obl = [d.not_(d.eq(x, 0)) for x in t.denominators[nden:]]
+            obl += [d.lt(0, x) if k == 'pos' else d.le(0, x) for k, x in t.domains[ndom:]]
+            for node in obl:
+                if not prove_cached(tr, st, f'{where} {CLAUSES2["well-defined"]}: {d.to_str(node, 4)}', node,
+                                    sig_of('well-defined', i), replay_upto(i, finite_only=True), label):
+                    return False
+        if t.pcs:
+            tr.inconc(f'{label}: [{ops_str(ops)}] the run depends on {len(t.pcs)} data-dependent decision(s) '
+                      f'({d.to_str(t.pcs[0], 4)}); only the region of the witness was decided')
+            return False
+        tr.witness_runs += 1
+        tr.ops_checked += t.nchecked
+        if state is not None:
+            state['hits'] = state.get('hits', 0) + st['hits']
+    return True
+
+
+def concrete_read(kind, K, lead, bkeys, which, r, p, curv, tag, finite_only=False):
+    """independent concrete oracle for one read on plain tensors; -> description of the failure or None"""
+    ncat = exp_cat(kind, K)
+    full = tuple(lead) + (ncat,)
+    if 'R' in which:
+        if not isinstance(r, torch.Tensor) or tuple(r.shape) != full:
+            return f'{tag}rates() has shape {tuple(r.shape) if isinstance(r, torch.Tensor) else r}, expected {full}'
+        r = r.detach().to(torch.float64)
+    if 'P' in which:
+        if not isinstance(p, torch.Tensor) or tuple(p.shape) not in allowed_prob_shapes(kind, K, lead, bkeys):
+            return (f'{tag}probabilities() has shape {tuple(p.shape) if isinstance(p, torch.Tensor) else p}, '
+                    f'expected {full}')
+        p = p.detach().to(torch.float64).expand(full)
+    if finite_only:
+        for x in (r, p):
+            if x is not None and not torch.isfinite(x).all():
+                return f'{tag}non-finite values {x.tolist()}'
+        return None
+    one = torch.ones(tuple(lead), dtype=torch.float64)
+    target = curv['mu'].squeeze(-1).expand(tuple(lead)) if 'mu' in curv else one
+    pinv = curv['pinv'].squeeze(-1).expand(tuple(lead)) if 'pinv' in curv else None
+    if which == 'R':
+        if kind == 'constant':
+            p = torch.ones(full, dtype=torch.float64)
+        elif kind == 'invariant':
+            p = torch.stack([pinv, 1 - pinv], -1)
+        elif kind == 'weibull':
+            p = torch.full(full, 1.0 / K, dtype=torch.float64)
+        else:
+            p = torch.stack([pinv] + [(1 - pinv) / K] * K, -1)
+    if 'P' in which:
+        if not torch.allclose(p.sum(-1), one, rtol=0, atol=1e-10):
+            return f'{tag}probabilities {p.tolist()} do not sum to one'
+        if (p < 0).any():
+            return f'{tag}negative probability {p.tolist()}'
+        if 'inv' in kind and not torch.allclose(p[..., 0], pinv, rtol=1e-9, atol=1e-12):
+            return f'{tag}invariant class: probability {p[..., 0].tolist()} != current pinv {pinv.tolist()}'
+    if 'R' in which:
+        if (r < 0).any():
+            return f'{tag}negative rate {r.tolist()}'
+        if 'inv' in kind and (r[..., 0] != 0).any():
+            return f'{tag}invariant class: rate {r[..., 0].tolist()} != 0'
+        mean = (r * p).sum(-1)
+        if not torch.allclose(mean, target, rtol=1e-9, atol=0):
+            return (f'{tag}mean rate {mean.tolist()} != {target.tolist()} (rates={r.tolist()}, '
+                    f'{"defining " if which == "R" else ""}probabilities={p.tolist()})')
+    return None
+
+
+def concrete_scenario(kind, K, mu, lead, bkeys, ops, vals, finite_only=False, last_only=True):
+    """the same ops on plain tensors (values of the solver model, witness values where the model has none or leaves
+    the domain); judged: the last read (last_only) or every read.  -> (True, what failed) | (False, 'agree')"""
+    keys = param_keys(kind, mu)
+    n = nrows_of(lead)
+    try:
+        site, dic = cm.build(model_json(kind, K, mu))
+        ver = {k: 0 for k in keys}
+        curv = {}
+        last = max([i for i, o in enumerate(ops) if o[0] == 'read'], default=-1)
+        for i, op in enumerate(ops):
+            if op[0] == 'U':
+                key = op[1]
+                batched = key in bkeys
+                m = n if batched else 1
+                lo, hi = RANGE[key]
+                row = []
+                for b in range(m):
+                    v = vals.get(var_name(key, ver[key], b, lead, batched))
+                    if v is None or not (lo < v < hi):
+                        v = wit2(key, ver[key], b, m)
+                    row.append(v)
+                tns = torch.tensor(row, dtype=torch.float64).reshape(tuple(lead) + (1,) if batched else (1,))
+                dic[key].tensor = tns
+                curv[key] = tns
+                ver[key] += 1
+                continue
+            r = p = None
+            for acc in op[1]:
+                if acc == 'R':
+                    r = site.rates()
+                else:
+                    p = site.probabilities()
+            if i == last or not last_only:
+                bad = concrete_read(kind, K, lead, bkeys, op[1], r, p, curv, f'[{ops_str(ops[:i + 1])}] ', finite_only)
+                if bad:
+                    return True, bad
+    except Exception as e:
+        return True, f'raises {type(e).__name__}: {e}'
+    return False, 'agree'
+
+
+# ---- extension 1: sample shapes with more than one leading dimension, every non-empty subset of batched parameters
+def lead_shapes(tier, kind, K):
+    ncat = exp_cat(kind, K)
+    leads = [(2,), (3,), (2, 3), (3, 2), (2, 2, 3), (1,)]
+    extra = [(K,), (K + 1,), (ncat,), (ncat + 1,)]
+    if tier != 'quick':
+        extra += [(ncat, ncat + 1), (ncat + 1, ncat), (1, ncat), (ncat, 1)]
+    for e in extra:
+        if e not in leads:
+            leads.append(e)
+    return leads
+
+
+def run_shapes(task, tr):
+    from torchtree.evolution import site_model as sm
+
+    _, kind, K, mu, bkeys, leads = task
+    keys = param_keys(kind, mu)
+    tr.fn(sm.ConstantSiteModel.rates, sm.ConstantSiteModel.probabilities, sm.InvariantSiteModel.update_rates_probs,
+          sm.UnivariateDiscretizedSiteModel.update_rates, sm.WeibullSiteModel.inverse_cdf)
+    tr.bounds['sample shapes'] = (
+        'parameters [*lead, 1] with lead in [2], [3], [2,3], [3,2], [2,2,3], [1], [K], [K+1], [ncat], [ncat+1] '
+        '(thorough also [ncat,ncat+1], [ncat+1,ncat], [1,ncat], [ncat,1]); ncat = number of categories; for every model '
+        '(Constant+mu, Invariant, Weibull, Weibull+Invariant, each with / without mu; Weibull K in 2,3 quick / 1..5 thorough) '
+        'and every non-empty subset of its parameters carrying the leading axes (the others stay [1]); '
+        'scenario: all parameters symbolic, rates() then probabilities(), all parameters replaced by fresh symbols, '
+        'probabilities() then rates(); every clause on the LAST axis of every sample; concrete obligation: '
+        'rates().shape == lead + (ncat,), probabilities().shape == lead + (ncat,) (the sample-independent form (ncat,) is '
+        'accepted only when no batched parameter enters the probabilities, i.e. the invariant proportion is absent or not batched)')
+    sub = '+'.join(bkeys)
+    state = {}
+    for lead in leads:
+        label = f'shapes {kind} K={K} mu={mu} lead={list(lead)} batched={sub}'
+        ops = [('U', k) for k in keys] + [('read', 'RP')] + [('U', k) for k in keys] + [('read', 'PR')]
+        sym_scenario(tr, kind, K, mu, lead, bkeys, ops, label,
+                     lambda clause, i: f'{kind}:batched=[{sub}]:{clause}', state)
+        if len(tr.violations) >= MAX_VIOLATIONS_PER_TASK:
+            tr.notes.append(f'{label}: stopped after {len(tr.violations)} reproduced violations')
+            break
+    tr.sample({'case': f'shapes {kind} K={K} mu={mu} batched={sub}', 'leads': [list(x) for x in leads],
+               'obligations closed by renaming onto an already proved one': state.get('hits', 0)})
+
+
+# ---- extension 2: op histories - all orders of updates between reads of one / the other / both accessors
+def op_histories(keys, L, first):
+    """first read (or none), then every sequence of exactly L ops over {U_k} + {R, P, RP, PR} (all shorter ones are
+    prefixes and every read is judged); a sequence that ends with an update is closed by each of the four reads"""
+    alphabet = [('U', k) for k in keys] + [('read', w) for w in READS]
+    init = [('U', k) for k in keys] + ([('read', first)] if first else [])
+    for seq in itertools.product(alphabet, repeat=L):
+        if seq[-1][0] == 'read':
+            yield init + list(seq)
+        else:
+            for w in READS:
+                yield init + list(seq) + [('read', w)]
+
+
+def ops_signature(kind, ops, clause, i):
+    """stable across K / batching / position in the history: the updates since the previous read, in order, and the read"""
+    j = i - 1
+    ups = []
+    while j >= 0 and ops[j][0] == 'U':
+        ups.append(ops[j][1])
+        j -= 1
+    if clause == 'raises':
+        return f'{kind}:ops:raises'
+    fresh = j < 0
+    return f'{kind}:ops:{clause}:{"fresh>" if fresh else ""}{">".join(reversed(ups))}|{ops[i][1]}'
+
+
+def run_ops(task, tr):
+    from torchtree.evolution import site_model as sm
+
+    _, kind, K, mu, lead, L, first, part, nparts = task
+    keys = param_keys(kind, mu)
+    tr.fn(sm.SiteModel.handle_parameter_changed, sm.ConstantSiteModel.rates, sm.ConstantSiteModel.probabilities,
+          sm.InvariantSiteModel.rates, sm.InvariantSiteModel.probabilities, sm.InvariantSiteModel.update_rates_probs,
+          sm.UnivariateDiscretizedSiteModel.rates, sm.UnivariateDiscretizedSiteModel.probabilities,
+          sm.UnivariateDiscretizedSiteModel.update_rates, sm.WeibullSiteModel.inverse_cdf)
+    for cls in (sm.ConstantSiteModel, sm.InvariantSiteModel, sm.WeibullSiteModel):
+        tr.fn(cls.handle_parameter_changed)
+    tr.bounds['op histories'] = (
+        'model built from JSON, every parameter replaced by symbols (order shape, pinv, mu), an optional first read '
+        '(none / R / P / RP; thorough also PR), then EVERY sequence of L ops over {update shape, update pinv, update mu} + '
+        '{R = rates() only, P = probabilities() only, RP, PR} (only the parameters the model has), L = 3 quick / 4 thorough; '
+        'a sequence ending with an update is closed by each of the four reads - so all orders of updating 2 and 3 parameters '
+        'between reads, with or without reads in between, are covered; an update assigns fresh symbols through '
+        'Parameter.tensor; every read is decided against the clauses at the symbols current at that moment (rates() alone: '
+        'rates >= 0, invariant rate == 0, mean under the defining probabilities (pinv, (1-pinv)/K, ...) at the current pinv '
+        '== current mu; probabilities() alone: sum to one, >= 0, invariant class == current pinv); Weibull K=2 (thorough '
+        'also K=3 at L=3); unbatched and (first read RP; thorough: every first read) batched [2,1]')
+    tr.assumptions.add('op histories: for a read of rates() alone the mean rate is taken under the defining category '
+                       'probabilities of the model (invariant class pinv, the K discretised classes (1-pinv)/K each) at the '
+                       'current pinv')
+    state = {}
+    nh = 0
+    tag = f'ops {kind} K={K} mu={mu} lead={list(lead)} first={first or "none"} L={L}'
+    for idx, ops in enumerate(op_histories(keys, L, first)):
+        if idx % nparts != part:
+            continue
+        nh += 1
+        sym_scenario(tr, kind, K, mu, lead, tuple(keys) if lead else (), ops, tag,
+                     lambda clause, i, ops=ops: ops_signature(kind, ops, clause, i), state)
+        if len(tr.violations) >= MAX_VIOLATIONS_PER_TASK or len(tr.inconclusive) >= MAX_VIOLATIONS_PER_TASK:
+            tr.notes.append(f'{tag}: stopped after {len(tr.violations)} reproduced violations / '
+                            f'{len(tr.inconclusive)} undecided ({nh} histories run)')
+            break
+    tr.sample({'case': f'{tag} (part {part + 1} of {nparts})', 'histories': nh, 'example': ops_str(ops),
+               'obligations closed by renaming onto an already proved one': state.get('hits', 0)})
+
+
 def tasks_for(tier):
     ts = []
     Ks = [1, 2, 3, 4] if tier == 'quick' else [1, 2, 3, 4, 5, 6, 8, 16]
@@ -495,6 +1033,51 @@ def tasks_for(tier):
                 for K in hK:
                     ts.append(('hist', 'weibull', K, mu, batched, variant))
                     ts.append(('hist', 'weibull+inv', K, mu, batched, variant))
+    # sample shapes: every model x every non-empty subset of batched parameters (one task runs all leading shapes)
+    sK = [2, 3] if tier == 'quick' else [1, 2, 3, 4, 5]
+    for mu in (False, True):
+        models = [('invariant', 1)] + [(k, K) for K in sK for k in ('weibull', 'weibull+inv')]
+        if mu:
+            models.insert(0, ('constant', 1))
+        for kind, K in models:
+            ks = param_keys(kind, mu)
+            for n in range(1, len(ks) + 1):
+                for S in itertools.combinations(ks, n):
+                    ts.append(('shapes', kind, K, mu, S, lead_shapes(tier, kind, K)))
+    # op histories (a task runs every nparts-th history of its family)
+    L = 3 if tier == 'quick' else 4
+    firsts = [None, 'R', 'P', 'RP'] if tier == 'quick' else [None, 'R', 'P', 'RP', 'PR']
+
+    def ops_tasks(kind, K, mu, lead, L, first):
+        n = len(param_keys(kind, mu))
+        nh = (n + 4) ** (L - 1) * (4 + 4 * n)
+        nparts = max(1, round(nh * (2 if lead else 1) / (250 if tier == 'quick' else 1500)))
+        return [('ops', kind, K, mu, lead, L, first, i, nparts) for i in range(nparts)]
+
+    for mu in (False, True):
+        models = [('invariant', 1), ('weibull', 2), ('weibull+inv', 2)]
+        if mu:
+            models.insert(0, ('constant', 1))
+        for kind, K in models:
+            for first in firsts:
+                ts += ops_tasks(kind, K, mu, (), L, first)
+            for first in (['RP'] if tier == 'quick' else firsts):
+                ts += ops_tasks(kind, K, mu, (2,), L, first)
+            if tier != 'quick' and kind.startswith('weibull'):
+                ts += ops_tasks(kind, 3, mu, (), 3, 'RP')
+
+    # the heaviest tasks first (the pool hands tasks out in order)
+    def cost(x):
+        if x[0] == 'ops':
+            return 2.0
+        if x[0] == 'shapes':
+            return 0.5
+        if x[0] == 'hist':
+            return 3.0 * (2 if x[4] else 1)
+        kind, K, mu, batched = x
+        return 0.3 * K * K * (2 if batched else 1) * (1.5 if 'inv' in kind else 1)
+
+    ts.sort(key=lambda x: -cost(x))
     return ts
 
 
@@ -504,9 +1087,23 @@ def body(chk):
                        'atoms and are decided by the solver for all admissible parameter values; the same clauses are '
                        'decided again after every partial update (each non-empty subset of shape / pinv / mu replaced by '
                        'fresh symbols) along chains of updates, for both accessor orders, so that a cache which one '
-                       'parameter fails to invalidate is a solver counterexample (stale mu != current mu)')
+                       'parameter fails to invalidate is a solver counterexample (stale mu != current mu). '
+                       'Sample shapes: parameters carry one, two or three leading axes (sizes colliding with the number of '
+                       'categories), every non-empty subset of them batched; the clauses are decided per sample on the last '
+                       'axis and the result shapes are a concrete obligation. Op histories: every sequence of 3 (thorough 4) '
+                       'ops over {update one parameter, rates() only, probabilities() only, both in either order} after an '
+                       'optional first read, every read decided at the current symbols. In these two families an obligation '
+                       'whose goal and hypotheses coincide, after renaming the current symbols of the sample to their role '
+                       '(shape / pinv / mu) and up to the operand order of + * and or =, with one the solver already proved '
+                       'is closed by that proof (the per-sample and per-history obligations of a correct implementation are '
+                       'instances of a handful of formulas); anything else - a stale or foreign symbol in particular - goes '
+                       'to the solver')
     chk.total.assumptions |= {'pow(base, 1/shape) with constant positive base is uninterpreted, constrained by pow > 0'}
-    pmap(run_task, tasks_for(chk.tier), chk.total)
+    CACHE_DIR[0] = tempfile.mkdtemp(prefix='c05_proved_')
+    try:
+        pmap(run_task, tasks_for(chk.tier), chk.total)
+    finally:
+        shutil.rmtree(CACHE_DIR[0], ignore_errors=True)
 
 
 if __name__ == '__main__':
